@@ -91,9 +91,12 @@ package datasource
 
 // ---- the five JSON parsers. encoding/json and strconv are outside the verified code: assumed not to panic, and
 // json.Unmarshal may leave anything (including nil elements) in the target.
+//@ ghost var gJsonErr Iface
+//@ ghost var gJsonN Int
 //@ extern encoding/json.Unmarshal(data, v) err
 //@   panics never
-//@   modifies heap
+//@   ensures gJsonErr == err && gJsonN == old(gJsonN) + 1
+//@   modifies heap, gJsonErr, gJsonN
 //@ extern strconv.Atoi(s) (n, err)
 //@   panics never
 //@   modifies nothing
@@ -107,26 +110,36 @@ package datasource
 //@ func FlowRuleJsonArrayParser(src) (r, err)
 //@   props C18
 //@   panics never
+//@   ensures[undecodable-payload-rejected] gJsonN > old(gJsonN) && gJsonErr != nil ==> err != nil && r == nil
+//@   ensures[decoded-at-most-once] gJsonN <= old(gJsonN) + 1
 //@   ensures[empty-payload-is-nil] len(src) == 0 ==> r == nil && err == nil
 //@   ensures[value-or-error] err != nil ==> r == nil
 //@ func IsolationRuleJsonArrayParser(src) (r, err)
 //@   props C18
 //@   panics never
+//@   ensures[undecodable-payload-rejected] gJsonN > old(gJsonN) && gJsonErr != nil ==> err != nil && r == nil
+//@   ensures[decoded-at-most-once] gJsonN <= old(gJsonN) + 1
 //@   ensures[empty-payload-is-nil] len(src) == 0 ==> r == nil && err == nil
 //@   ensures[value-or-error] err != nil ==> r == nil
 //@ func SystemRuleJsonArrayParser(src) (r, err)
 //@   props C18
 //@   panics never
+//@   ensures[undecodable-payload-rejected] gJsonN > old(gJsonN) && gJsonErr != nil ==> err != nil && r == nil
+//@   ensures[decoded-at-most-once] gJsonN <= old(gJsonN) + 1
 //@   ensures[empty-payload-is-nil] len(src) == 0 ==> r == nil && err == nil
 //@   ensures[value-or-error] err != nil ==> r == nil
 //@ func CircuitBreakerRuleJsonArrayParser(src) (r, err)
 //@   props C18
 //@   panics never
+//@   ensures[undecodable-payload-rejected] gJsonN > old(gJsonN) && gJsonErr != nil ==> err != nil && r == nil
+//@   ensures[decoded-at-most-once] gJsonN <= old(gJsonN) + 1
 //@   ensures[empty-payload-is-nil] len(src) == 0 ==> r == nil && err == nil
 //@   ensures[value-or-error] err != nil ==> r == nil
 //@ func HotSpotParamRuleJsonArrayParser(src) (r, err)
 //@   props C18
 //@   panics never
+//@   ensures[undecodable-payload-rejected] gJsonN > old(gJsonN) && gJsonErr != nil ==> err != nil && r == nil
+//@   ensures[decoded-at-most-once] gJsonN <= old(gJsonN) + 1
 //@   replay ds_parser_null_element
 //@   ensures[empty-payload-is-nil] len(src) == 0 ==> r == nil && err == nil
 //@   ensures[value-or-error] err != nil ==> r == nil
